@@ -3211,3 +3211,138 @@ def _(ex, a):
     if h.box.strong == 1 and h.box.weak == 1:
         return Some(Ref(h.box.cell))
     return NONE()
+
+
+# ------------------------------------------------------------------ BinaryHeap::extend / append, as std does them
+# extend pushes nothing one by one: it appends to the backing vector and then calls rebuild_tail(old_len), which
+# either sifts the new elements up or re-heapifies bottom-up - the two lay out equal elements differently.
+def _sift_down_range(ex, href, pos, end):
+    d = ex.deref(href).f
+    elt = d[pos]
+    child = 2 * pos + 1
+    while child <= max(end - 2, 0) and end >= 2:
+        d[pos] = elt
+        if _heap_le(ex, href, child, child + 1):
+            child += 1
+        # if hole.element() >= hole.get(child) { return }
+        if _heap_le(ex, href, child, pos):
+            d[pos] = elt
+            return
+        d[pos] = d[child]
+        pos = child
+        child = 2 * pos + 1
+    d[pos] = elt
+    if child == end - 1:
+        # hole.element() < hole.get(child)
+        if not _heap_le(ex, href, child, pos):
+            d[pos], d[child] = d[child], elt
+
+
+def _rebuild_tail(ex, href, start):
+    d = ex.deref(href).f
+    n = len(d)
+    if start == n:
+        return
+    tail = n - start
+
+    def log2_fast(x):
+        return x.bit_length() - 1
+    if start < tail:
+        better = True
+    elif n <= 2048:
+        better = 2 * n < tail * log2_fast(start)
+    else:
+        better = 2 * n < tail * 11
+    if better:
+        k = n // 2
+        while k > 0:
+            k -= 1
+            _sift_down_range(ex, href, k, n)
+    else:
+        for i in range(start, n):
+            _sift_up(ex, href, 0, i)
+
+
+def _heap_extend(ex, a):
+    h = ex.deref(a[0])
+    start = len(h.f)
+    h.f.extend(_items_of(ex, a[1]))
+    _rebuild_tail(ex, a[0], start)
+    return UNIT()
+
+
+P['<BinaryHeap as Extend>::extend'] = _heap_extend
+P['BinaryHeap::extend'] = _heap_extend
+
+
+@prim('BinaryHeap::append')
+def _(ex, a):
+    h, o = ex.deref(a[0]), ex.deref(a[1])
+    if len(h.f) < len(o.f):
+        h.f, o.f = o.f, h.f
+    start = len(h.f)
+    h.f.extend(o.f)
+    o.f = []
+    _rebuild_tail(ex, a[0], start)
+    return UNIT()
+
+
+@prim('<BinaryHeap as From>::from', '<BinaryHeap as FromIterator>::from_iter')
+def _(ex, a):
+    items = list(a[0].f) if isinstance(a[0], Agg) and a[0].kind in ('Vec', 'array') else _items_of(ex, a[0])
+    c = Cell(Agg('BinaryHeap', items))
+    k = len(items) // 2
+    while k > 0:
+        k -= 1
+        _sift_down_range(ex, Ref(c), k, len(items))
+    return c.v
+
+
+# ------------------------------------------------------------------ ManuallyDrop and more raw-pointer plumbing
+@prim('ManuallyDrop::new')
+def _(ex, a):
+    return Agg('ManuallyDrop', [a[0]])
+
+
+@prim('<ManuallyDrop as Deref>::deref', '<ManuallyDrop as DerefMut>::deref_mut')
+def _(ex, a):
+    return Ref(a[0].cell, tuple(a[0].path) + (('f', 0),))
+
+
+@prim('ManuallyDrop::into_inner')
+def _(ex, a):
+    return a[0].f[0]
+
+
+@prim('ManuallyDrop::drop')
+def _(ex, a):
+    ex.drop(ex.deref(a[0]).f[0])
+    return UNIT()
+
+
+@prim('<ManuallyDrop as Clone>::clone')
+def _(ex, a):
+    return Agg('ManuallyDrop', [clone_value(ex, ex.deref(a[0]).f[0])])
+
+
+DROP_HOOKS['ManuallyDrop'] = lambda ex, v: None        # the whole point: the wrapped value is not dropped
+
+
+@prim('Weak::strong_count')
+def _(ex, a):
+    return ex.deref(a[0]).box.strong
+
+
+@prim('Weak::weak_count')
+def _(ex, a):
+    b = ex.deref(a[0]).box
+    return b.weak - 1 if b.strong > 0 else 0
+
+
+def _as_ptr(ex, a):
+    b = ex.deref(a[0]).box
+    ex.raw_ptrs[_addr(b)] = b
+    return _addr(b)
+
+
+P['Rc::as_ptr'] = P['Arc::as_ptr'] = P['Weak::as_ptr'] = _as_ptr
